@@ -1767,6 +1767,13 @@ impl<'ast> Visit<'ast> for ClosureLister {
 /// `@@hoist k ~text`: ordinal of the innermost closure of the block containing `text` (if unique), else k
 fn resolve_hoist(block: &syn::Block, src: &str, k: usize, text: &Option<String>) -> usize {
     if let Some(t) = text {
+        // `~text#j`: the j-th (0-based, in source order) of the innermost closures containing `text`
+        // (for textually identical closures: robust against closures added or removed elsewhere)
+        let (t, nth) = match t.rsplit_once('#') {
+            Some((a, j)) if !j.is_empty() && j.chars().all(|c| c.is_ascii_digit()) => (a.trim_end().to_string(), j.parse::<usize>().ok()),
+            _ => (t.clone(), None),
+        };
+        let t = &t;
         let mut cl = ClosureLister { all: vec![] };
         cl.visit_block(block);
         let cands: Vec<usize> = (0..cl.all.len())
@@ -1775,8 +1782,15 @@ fn resolve_hoist(block: &syn::Block, src: &str, k: usize, text: &Option<String>)
                 src[s..e].contains(t.as_str()) && !cl.all.iter().any(|&(s2, e2)| s2 > s && e2 <= e && src[s2..e2].contains(t.as_str()))
             })
             .collect();
-        if cands.len() == 1 {
+        if cands.len() == 1 && nth.is_none() {
             return cands[0];
+        }
+        if let Some(j) = nth {
+            if let Some(c) = cands.get(j) {
+                return *c;
+            }
+            // fewer such closures than expected: an ordinal no closure has (the directive loses its anchor)
+            return usize::MAX;
         }
     }
     k
